@@ -11,6 +11,7 @@ def main(ctx):
         J.append({'mod': 'vf.harness.c02', 'fn': 'cost_volume', 'mode': 'sym', 'args': kw})
     cvj(); cvj(ws=1, H=2, W=5, dmin=-2, dmax=-1); cvj(dmin=1, dmax=2); cvj(method='census', masks=True, H=3, W=5, dmin=-1, dmax=0)
     cvj(grids=True, masks=True, H=3, W=5); cvj(lcodes=[0, 1], rcodes=[3, 2], H=3, W=5, dmin=0, dmax=1)
+    cvj(dmin=-2, dmax=-1, masks=False); cvj(dmin=-3, dmax=-1, W=7, masks=False)      # strictly negative interval with a 3x3 window
     if not ctx.quick:
         cvj(ws=3, H=4, W=7, dmin=-2, dmax=2); cvj(ws=5, H=5, W=7, dmin=-1, dmax=0); cvj(method='ssd', H=3, W=6, dmin=-2, dmax=0)
         cvj(dmin=-3, dmax=-2, W=7); cvj(dmin=2, dmax=3, W=7); cvj(grids=True, method='census', masks=True, H=3, W=6)
